@@ -270,6 +270,35 @@ def job_window(tier, seed):
                 g.append(z3.Implies(names['dma.active_channel'] != c, now == names['dma.ch%d.%s' % (c, f[3:])]))
         ck.prove('DmaWindow[%#05x]' % a, A + extra, z3.And(*g), vars={'v': v, 'active_channel': names['dma.active_channel']},
                  sample='a write through window register %#05x leaves every field of the seven channels that are not selected unchanged' % a if a == 0x1C8 else None)
+    # independent copies as the program sees them: select channel c1, write v1, select another channel c2, write v2 to the
+    # same window register, select c1 again: the read-back is v1's (on the register's writable bits), for all c1 != c2 mod 8
+    c1, c2, v1, v2 = z3.BitVec('c1', 16), z3.BitVec('c2', 16), z3.BitVec('v1', 16), z3.BitVec('v2', 16)
+    for a in range(0x1C0, 0x1E0, 2):
+        kind, par = expectation(a)
+        extra = [(c1 & 7) != (c2 & 7)] + ([v1 != 0x40C0, v2 != 0x40C0] if a == 0x1DE else [])
+        s1 = st0.fork()
+        s1.pc += extra
+        try:
+            ex.exits = []
+            ex.call(s1, '@ti_mmio_write', [impl, 0x1BE, c1])
+            pre = bv(ex.call(s1, '@ti_mmio_read', [impl, a])[1], 16)
+            ex.call(s1, '@ti_mmio_write', [impl, a, v1])
+            ex.call(s1, '@ti_mmio_write', [impl, 0x1BE, c2])
+            ex.call(s1, '@ti_mmio_write', [impl, a, v2])
+            ex.call(s1, '@ti_mmio_write', [impl, 0x1BE, c1])
+            aborts = kit.exit_cond(ex, ('assert', 'abort', 'throw'))
+            got = bv(ex.call(s1, '@ti_mmio_read', [impl, a])[1], 16)
+        except (Abort, UnwindBound) as x:
+            ck.inconclusive.append('window switch %#05x: %s' % (a, str(x)[:100]))
+            continue
+        ck.nstates += 1
+        want = {'plain': v1, 'const': z3.BitVecVal(par or 0, 16), 'mask': v1 & (par or 0), 'ro': pre, 'or_old': pre | v1,
+                'overlay': (v1 & ~z3.BitVecVal(par or 0, 16)) | (pre & (par or 0))}[kind]
+        # documented per-channel fields (Appendix B / dma.md): 0x1DA holds SRC[3:0] DST[7:4] DWM[10]; its undocumented bits
+        # live in the cell's single backing word and are not claimed to be per channel
+        dm_ = {0x1DA: 0x04FF}.get(a, 0xFFFF)
+        ck.prove('DmaWindow.switch[%#05x]' % a, A + extra, z3.Or(aborts, (got & dm_) == (want & dm_)), vars={'c1': c1, 'c2': c2, 'v1': v1, 'v2': v2},
+                 sample='select channel c1, write v1 to %#05x, select c2 != c1, write v2, select c1 again: %#05x reads v1 (on its writable bits) for all 16-bit c1, c2, v1, v2' % (a, a) if a in (0x1C8, 0x1DA) else None)
     return ck.export()
 
 
